@@ -272,12 +272,37 @@ def check_b32(ctx):
     ctx.expect(paths, ret=1)
 
 
+def check_apm_max(ctx, cursor):
+    """limit = the largest value of the token type (255): the table is full except for at most one symbolic slot;
+    the cursor is a given concrete position (0 = wrapped after issuing token 255)"""
+    eng = ctx.eng
+    mem0 = eng.initial_memory()
+    t = ctx.sym("free", 8)                      # the one free token, or 0 for "none"
+    cs = [pres(mem0, BV(0, 8)) == 1, cnt(mem0) == cursor]
+    for jj in range(1, 256):
+        cs.append(z3.Select(mem0, BV(M + jj, 64)) == z3.If(t == jj, BV(0, 8), BV(1, 8)))
+    ctx.assume(*cs)
+    ptr = ctx.sym("ptr", 64)
+    paths = ctx.run("k_apm_get", [BV(M, 64), ptr, BV(255, 8)])
+    for q in paths:
+        if q.status == "ret":
+            tok = z3.Extract(7, 0, q.ret)
+            ctx.require(q, z3.And(t != 0, tok == t, pres(q.mem, tok) == 1, val(q.mem, tok) == ptr), "the only unused token is issued")
+        elif q.status == "abort":
+            ctx.require(q, t == 0, "registration aborts only when every token up to the limit is in use")
+    ctx.only(paths, "ret", "abort")
+    ctx.expect(paths, ret=1, abort=1)
+
+
 def jobs(tier, seed):
     L = 12 if tier == "quick" else 40
     flags = ["-isystem", "/verif/stubs/mapmodel", "-fno-exceptions"]
     src = '#include "C15_apm.inc"\n'
     out = [Job("C15_apm_" + op, src, [dict(name="table %s limit<=%d" % (op, L), fn=check_apm, kw=dict(op=op, L=L), unwind=600)], flags=flags, native=False,
                max_paths=200000) for op in ("get", "rm", "lk")]
+    for c in ((1, 255, 0) if tier == "quick" else (1, 2, 128, 254, 255, 0)):
+        out.append(Job("C15_apm_max_%d" % c, src, [dict(name="limit 255 (largest token value), cursor %d" % c, fn=check_apm_max, kw=dict(cursor=c), unwind=1200)],
+                       flags=flags, native=False, max_paths=200000))
     out.append(Job("C15_apm_ctor", src, [dict(name="table constructor", fn=check_ctor, unwind=600)], flags=flags, native=False))
     depth = 3 if tier == "quick" else 4
     osrc = '#include "C15_owner.inc"\n'
